@@ -499,7 +499,12 @@ func (fe *FnEnc) frameCheck(ev *Eval, pos token.Pos) {
 	allowedRefs := map[string][]string{}
 	whole := map[string]bool{}
 	ev0 := fe.newEval(fe.entryMem, fe.entryMem, fe.paramVals)
+	anything := false
 	for _, as := range ct.Assigns {
+		if n, ok := as.E.(*EName); ok && n.Name == "anything" {
+			anything = true
+			continue
+		}
 		if c, ok := as.E.(*ECall); ok && (c.Fn == "ghost" || c.Fn == "heap") {
 			if c.Fn == "ghost" {
 				for _, a := range c.Args {
@@ -564,7 +569,7 @@ func (fe *FnEnc) frameCheck(ev *Eval, pos token.Pos) {
 	var what []string
 	for _, k := range sortedKeys(fe.mem.heaps) {
 		cur := fe.mem.heaps[k]
-		if cur == k+"_0" || whole[k] {
+		if cur == k+"_0" || whole[k] || anything {
 			continue
 		}
 		// objects allocated by this call are exempt
@@ -579,7 +584,7 @@ func (fe *FnEnc) frameCheck(ev *Eval, pos token.Pos) {
 		what = append(what, k)
 	}
 	for _, ck := range sortedKeys(fe.entryMem.cells) {
-		if whole["cell:"+ck] {
+		if whole["cell:"+ck] || anything {
 			continue
 		}
 		if cur, ok := fe.mem.cells[ck]; ok && cur != fe.entryMem.cells[ck] {
